@@ -13,6 +13,8 @@
 //!   F <fld> <ext> <hd> <dom> <ff> <hex>                                 FriProof::read_from_bytes + num_partitions + parse_remainder + parse_layers
 //!   C <hd> <nseg> <nlayers> <hex>                                       Commitments::read_from_bytes + parse::<H>
 //!   D <nq> <dom>                                                       DefaultRandomCoin::draw_integers
+//!   L <fld> <hd> <logn> <aw> <nr> <proofhex>                            (falsifier only) Proof::from_bytes + verify::<SLagAir<B>, ..>: an AIR with a
+//!                                                                      Lagrange kernel column and a GKR proof (outside the model's stage 3)
 use std::alloc::{GlobalAlloc, Layout as ALayout, System};
 use std::io::{Read, Write};
 use std::panic::AssertUnwindSafe;
@@ -20,21 +22,25 @@ use std::sync::atomic::{AtomicUsize, Ordering};
 
 use winter_air::{
     proof::{Commitments, OodFrame, Proof, Queries},
-    Air, AirContext, Assertion, EvaluationFrame, FieldExtension, ProofOptions, TraceInfo,
+    Air, AirContext, Assertion, EvaluationFrame, FieldExtension, GkrVerifier, LagrangeKernelRandElements, ProofOptions, TraceInfo,
 };
 use winter_crypto::{
-    hashers::{Blake3_192, Blake3_256, Rp64_256, Sha3_256},
+    hashers::{Blake3_192, Blake3_256, Rp62_248, Rp64_256, RpJive64_256, Sha3_256},
     DefaultRandomCoin, ElementHasher, RandomCoin,
 };
 use winter_fri::FriProof;
 use winter_math::{
-    fields::{f128, f64, CubeExtension, QuadExtension},
+    fields::{f128, f62, f64, CubeExtension, QuadExtension},
     ExtensibleField, ExtensionOf, FieldElement, StarkField,
 };
 use winter_prover::{Prover, Trace};
 use winter_utils::{Deserializable, Serializable};
 use winter_verifier::{verify, AcceptableOptions, VerifierError};
-use wf_harness::{airfam::*, catch, hex_bytes, jstr, prng::Rng, silence_panics};
+use wf_harness::{airfam::*, catch, hex_bytes, jstr, lagfam::{self, LagAir, LagProver, LagTrace}, prng::Rng, silence_panics};
+
+#[path = "../noncanon.rs"]
+#[allow(dead_code)]
+mod noncanon;
 
 // ================================================================================================ counting allocator
 struct Counting;
@@ -65,13 +71,20 @@ fn alloc_read() -> (usize, usize) { (TOTAL.load(Ordering::Relaxed), MAXREQ.load(
 trait Fld: StarkField + ExtensibleField<2> + ExtensibleField<3> + 'static { const NAME: &'static str; }
 impl Fld for f64::BaseElement { const NAME: &'static str = "f64"; }
 impl Fld for f128::BaseElement { const NAME: &'static str = "f128"; }
+impl Fld for f62::BaseElement { const NAME: &'static str = "f62"; }
 
 type B64 = f64::BaseElement;
 type B128 = f128::BaseElement;
+type B62 = f62::BaseElement;
 
-/// (field, hasher) combinations of the corpus
-const COMBOS: [(&str, &str); 5] = [("f64", "b3_256"), ("f64", "b3_192"), ("f64", "rp64"), ("f128", "b3_256"), ("f128", "sha3")];
-fn digest_len(h: &str) -> usize { if h == "b3_192" { 24 } else { 32 } }
+/// (field, hasher) combinations of the corpus.  The last three (third base field; the other two Rescue digests) are
+/// "lite": their proofs get the element-level classes only (`lite_combo`)
+const COMBOS: [(&str, &str); 8] = [("f64", "b3_256"), ("f64", "b3_192"), ("f64", "rp64"), ("f128", "b3_256"), ("f128", "sha3"),
+                                   ("f64", "rpjive"), ("f62", "b3_256"), ("f62", "rp62")];
+fn lite_combo(f: &str, h: &str) -> bool { f == "f62" || h == "rpjive" }
+fn digest_len(h: &str) -> usize { if h == "b3_192" { 24 } else if h == "rp62" { 31 } else { 32 } }
+fn elem_bytes_of(f: &str) -> usize { if f == "f128" { 16 } else { 8 } }
+fn modulus_bytes(f: &str) -> Vec<u8> { match f { "f64" => B64::get_modulus_le_bytes(), "f128" => B128::get_modulus_le_bytes(), _ => B62::get_modulus_le_bytes() } }
 
 macro_rules! dispatch {
     ($f:expr, $h:expr, $func:ident ( $($a:expr),* )) => {
@@ -81,6 +94,9 @@ macro_rules! dispatch {
             ("f64", "rp64") => $func::<B64, Rp64_256>($($a),*),
             ("f128", "b3_256") => $func::<B128, Blake3_256<B128>>($($a),*),
             ("f128", "sha3") => $func::<B128, Sha3_256<B128>>($($a),*),
+            ("f64", "rpjive") => $func::<B64, RpJive64_256>($($a),*),
+            ("f62", "b3_256") => $func::<B62, Blake3_256<B62>>($($a),*),
+            ("f62", "rp62") => $func::<B62, Rp62_248>($($a),*),
             _ => panic!("unknown field/hasher {} {}", $f, $h),
         }
     };
@@ -151,6 +167,67 @@ impl<B: Fld, H: ElementHasher<BaseField = B> + Send + Sync> Prover for MetaProve
     }
 }
 
+// ================================================================================================ an AIR with a Lagrange kernel column
+/// The GKR step as an application has to write it: the proof (here: the number of random elements the prover drew) is
+/// untrusted, so it is validated before it is used.  (lagfam::LagGkrVerifier accepts any value <= 64.)
+#[derive(Debug, Clone, Default)]
+pub struct StrictGkr { log_n: usize }
+impl GkrVerifier for StrictGkr {
+    type GkrProof = usize;
+    type Error = String;
+    fn verify<E, Hh>(&self, gkr_proof: usize, public_coin: &mut impl RandomCoin<BaseField = E::BaseField, Hasher = Hh>) -> Result<LagrangeKernelRandElements<E>, String>
+    where E: FieldElement, Hh: ElementHasher<BaseField = E::BaseField> {
+        if gkr_proof != self.log_n { return Err(format!("gkr proof: {} random elements claimed, {} expected", gkr_proof, self.log_n)); }
+        let mut v: Vec<E> = Vec::with_capacity(gkr_proof);
+        for _ in 0..gkr_proof { v.push(public_coin.draw().map_err(|e| e.to_string())?); }
+        Ok(LagrangeKernelRandElements::new(v))
+    }
+}
+/// `lagfam::LagAir` behind a constructor that insists on its layout (cf. StrictAir) and with the validating GKR verifier
+pub struct SLagAir<B: StarkField>(LagAir<B>, usize);
+impl<B: StarkField + ExtensibleField<2> + ExtensibleField<3>> Air for SLagAir<B> {
+    type BaseField = B;
+    type PublicInputs = ();
+    type GkrProof = usize;
+    type GkrVerifier = StrictGkr;
+    fn new(ti: TraceInfo, _pi: (), options: ProofOptions) -> Self {
+        assert!(ti.main_trace_width() == 1 && ti.aux_segment_width() >= 1, "air-new: the trace layout claimed by the proof is not the layout of this AIR");
+        let log_n = ti.length().ilog2() as usize;
+        SLagAir(LagAir::new(ti, (), options), log_n)
+    }
+    fn context(&self) -> &AirContext<B> { self.0.context() }
+    fn evaluate_transition<E: FieldElement<BaseField = B>>(&self, frame: &EvaluationFrame<E>, p: &[E], result: &mut [E]) { self.0.evaluate_transition(frame, p, result) }
+    fn get_assertions(&self) -> Vec<Assertion<B>> { self.0.get_assertions() }
+    fn evaluate_aux_transition<F, E>(&self, m: &EvaluationFrame<F>, a: &EvaluationFrame<E>, p: &[F], r: &[E], result: &mut [E])
+    where F: FieldElement<BaseField = B>, E: FieldElement<BaseField = B> + ExtensionOf<F> { self.0.evaluate_aux_transition(m, a, p, r, result) }
+    fn get_aux_assertions<E: FieldElement<BaseField = B>>(&self, r: &[E]) -> Vec<Assertion<E>> { self.0.get_aux_assertions(r) }
+    fn get_auxiliary_proof_verifier<E: FieldElement<BaseField = B>>(&self) -> StrictGkr { StrictGkr { log_n: self.1 } }
+}
+
+/// corpus line "lag <fld> <hsh> <options hex> <log_n> <aux width> <aux rands> <ext> <proof hex>" (9 tokens: not a `Base` line)
+fn gen_lag<B: Fld, H>(fld: &str, hsh: &str, log_n: u32, aw: usize, nr: usize, o: [usize; 6]) -> Option<String>
+where H: ElementHasher<BaseField = B> + Send + Sync {
+    let opts = catch(|| ProofOptions::new(o[0], o[1], o[2] as u32, ext_of(o[3] as u8), o[4], o[5])).ok()?;
+    let prover = LagProver::<B, H, DefaultRandomCoin<H>>::new(opts.clone(), aw);
+    let proof = match catch(AssertUnwindSafe(|| prover.prove(LagTrace::<B>::new(log_n, aw, nr)))) { Ok(Ok(p)) => p, _ => return None };
+    let _ = lagfam::take_uses();
+    let bytes = proof.to_bytes();
+    let acc = AcceptableOptions::MinConjecturedSecurity(0);
+    let v = catch(AssertUnwindSafe(|| verify::<SLagAir<B>, H, DefaultRandomCoin<H>>(proof, (), &acc)));
+    let _ = lagfam::take_uses();
+    if !matches!(v, Ok(Ok(()))) { return None; }
+    Some(format!("lag {} {} {} {} {} {} {} {}", fld, hsh, hex_bytes(&opts.to_bytes()), log_n, aw, nr, o[3], hex_bytes(&bytes)))
+}
+#[derive(Clone)]
+struct LBase { fld: String, hsh: String, log_n: u32, aw: usize, nr: usize, ext: usize, bytes: Vec<u8> }
+fn load_lag(path: &str) -> Vec<LBase> {
+    std::fs::read_to_string(path).expect("corpus").lines().filter_map(|l| {
+        let t: Vec<&str> = l.split(' ').collect();
+        if t.len() != 9 || t[0] != "lag" { return None; }
+        Some(LBase { fld: t[1].into(), hsh: t[2].into(), log_n: t[4].parse().ok()?, aw: t[5].parse().ok()?, nr: t[6].parse().ok()?, ext: t[7].parse().ok()?, bytes: unhex(t[8]) })
+    }).collect()
+}
+
 // ================================================================================================ corpus
 #[derive(Clone)]
 struct Base { fld: String, hsh: String, spec: Spec, avals_hex: Vec<Vec<String>>, opts: [u8; 6], ceb: usize, ncols: usize, bytes: Vec<u8> }
@@ -208,7 +285,7 @@ fn air_params<B: Fld>(spec: &Spec, avals_hex: &[Vec<String>]) -> Option<(usize, 
     Some((air.ce_blowup_factor(), air.context().num_constraint_composition_columns()))
 }
 fn air_params_dyn(fld: &str, spec: &Spec, avals_hex: &[Vec<String>]) -> Option<(usize, usize)> {
-    if fld == "f64" { air_params::<B64>(spec, avals_hex) } else { air_params::<B128>(spec, avals_hex) }
+    match fld { "f64" => air_params::<B64>(spec, avals_hex), "f128" => air_params::<B128>(spec, avals_hex), _ => air_params::<B62>(spec, avals_hex) }
 }
 
 /// one honest proof; None when the library's prover refuses the parameters
@@ -264,7 +341,34 @@ fn gen(seed: u64, path: &str, thorough: bool) {
     if thorough {
         plans.extend([(5, 5, 3, 3, 2, [8, 4, 3, 2, 4, 3]), (1, 6, 2, 0, 0, [10, 8, 0, 1, 2, 1]), (8, 3, 2, 1, 3, [7, 4, 0, 3, 2, 3])]);
     }
+    let mut lag_lines: Vec<String> = Vec::new();
     for (f, h) in COMBOS {
+        // all-zero traces (Spec::constant_trace): every element of every component is 0, so that "modulus + original value" fits
+        // the word and the SAME residue exists in a second encoding (noncanonical:*=same); with an auxiliary segment of two
+        // columns the second one is all zero.  Base field and the largest extension the field supports.
+        if h == "b3_256" {
+            let top = if f == "f128" { 2 } else { 3 };
+            for (aux, ext) in [(0usize, 1usize), (0, top), (2, 2)] {
+                let mut spec = Spec::simple(2, 3, 2, r.next_u64());
+                spec.constant_trace = true; spec.aux_width = aux; spec.aux_rands = aux.min(1);
+                if let Some(b) = dispatch!(f, h, gen_one(f, h, &spec, [4, 4, 0, ext, 4, 1])) { out.push(b); }
+            }
+        }
+        // an AIR with a Lagrange kernel column and a GKR proof (harness/src/lagfam.rs)
+        if h == "b3_256" || h == "rp64" {
+            for (log_n, aw, nr, o) in [(3u32, 2usize, 1usize, [4usize, 4, 0, 2, 2, 1]), (4, 3, 2, [5, 2, 0, 1, 4, 3])] {
+                if let Some(l) = dispatch!(f, h, gen_lag(f, h, log_n, aw, nr, o)) { lag_lines.push(l); }
+            }
+        }
+        if lite_combo(f, h) {
+            for pl in [&plans[1], &plans[4], &plans[6]] {
+                let mut spec = Spec::simple(pl.0, pl.1, pl.2, r.next_u64());
+                spec.aux_width = pl.3; spec.aux_rands = pl.4;
+                spec.assertions.push(AKind::Single { col: 1, step: spec.n() - 1 });
+                if let Some(b) = dispatch!(f, h, gen_one(f, h, &spec, pl.5)) { out.push(b); }
+            }
+            continue;
+        }
         for (pi_, pl) in plans.iter().enumerate() {
             if !thorough && pi_ >= 5 && (h == "b3_192" || h == "sha3") { continue; }
             let mut spec = Spec::simple(pl.0, pl.1, pl.2, r.next_u64());
@@ -274,8 +378,8 @@ fn gen(seed: u64, path: &str, thorough: bool) {
         }
         // valid proofs whose context carries metadata: full-width blocks of 0xFF, the modulus bytes, random bytes
         {
-            let eb = if f == "f64" { 8 } else { 16 };
-            let modb: Vec<u8> = if f == "f64" { B64::get_modulus_le_bytes() } else { B128::get_modulus_le_bytes() };
+            let eb = elem_bytes_of(f);
+            let modb: Vec<u8> = modulus_bytes(f);
             let mut metas: Vec<Vec<u8>> = vec![vec![0xff; eb], { let mut m = modb.clone(); m.push(5); m }, r.bytes(2 * eb + 3)];
             if thorough { metas.push(vec![0xff; eb - 1]); metas.push(vec![0xff; 2 * eb]); metas.push(r.bytes(1000)); }
             if h == "b3_192" || h == "sha3" { metas.truncate(1); }
@@ -303,7 +407,8 @@ fn gen(seed: u64, path: &str, thorough: bool) {
     }
     let mut f = std::fs::File::create(path).expect("create corpus");
     for b in &out { writeln!(f, "{}", base_line(b)).unwrap(); }
-    println!("corpus: {} proofs, sizes {:?}", out.len(), out.iter().map(|b| b.bytes.len()).collect::<Vec<_>>());
+    for l in &lag_lines { writeln!(f, "{}", l).unwrap(); }
+    println!("corpus: {} proofs (+{} with a Lagrange kernel column), sizes {:?}", out.len(), lag_lines.len(), out.iter().map(|b| b.bytes.len()).collect::<Vec<_>>());
 }
 
 // ================================================================================================ wire-format dissector (after harness/src/bin/c03.rs)
@@ -374,7 +479,9 @@ fn set_le(m: &mut [u8], p: usize, w: usize, mut v: u64) { for k in 0..w { m[p + 
 #[derive(Clone)]
 struct VCase { label: String, fld: String, hsh: String, spec: Spec, avals_hex: Vec<Vec<String>>, ceb: usize, ncols: usize, policy: Option<[u8; 6]>, bytes: Vec<u8> }
 #[derive(Clone)]
-enum Case { V(VCase), Line(String, String) } // Line(label, "<kind> ...")
+struct LCase { label: String, fld: String, hsh: String, log_n: u32, aw: usize, nr: usize, bytes: Vec<u8> }
+#[derive(Clone)]
+enum Case { V(VCase), Line(String, String), L(LCase) } // Line(label, "<kind> ...")
 
 impl VCase {
     fn line(&self) -> String {
@@ -400,8 +507,8 @@ fn field_values(w: usize, orig: u64) -> Vec<u64> {
 fn meta_mutations(b: &Base, lay: &Layout, r: &mut Rng, out: &mut Vec<Case>) {
     let bytes = &b.bytes;
         let meta = lay.get("ti.meta");
-        let ebb = if b.fld == "f64" { 8usize } else { 16 };
-        let modb: Vec<u8> = if b.fld == "f64" { B64::get_modulus_le_bytes() } else { B128::get_modulus_le_bytes() };
+        let ebb = elem_bytes_of(&b.fld);
+        let modb: Vec<u8> = modulus_bytes(&b.fld);
         let mut modp = modb.clone(); for x in modp.iter_mut() { let (y, c) = x.overflowing_add(1); *x = y; if !c { break; } }   // modulus + 1
         let mut modm = modb.clone(); for x in modm.iter_mut() { let (y, c) = x.overflowing_sub(1); *x = y; if !c { break; } }   // modulus - 1
         let fill = |kind: usize, n: usize, r: &mut Rng| -> Vec<u8> { match kind {
@@ -428,6 +535,72 @@ fn meta_mutations(b: &Base, lay: &Layout, r: &mut Rng, out: &mut Vec<Case>) {
         for i in 0..body.len().min(64) { let mut nb = body.to_vec(); nb[i] = 0xff; out.push(vcase(b, format!("meta:byte{}=ff", i), splice(bytes, meta, &nb))); }
 }
 
+/// The element-bearing components of a serialized proof: (name, offsets of the elements, field of the words, words per element).
+/// `ext`: degree of the extension the proof works in; `hsh`: hasher (Rescue digests are four field elements each).
+fn element_regions(bytes: &[u8], lay: &Layout, fld: &str, ext: usize, hsh: &str) -> Vec<(String, Vec<usize>, noncanon::Fp, usize)> {
+    let f = noncanon::fp(fld);
+    let mut v = Vec::new();
+    for s in &lay.segs {
+        let n = s.name.as_str();
+        if s.end <= s.start { continue; }
+        if n == "ood.trace" || n == "ood.lagrange" { v.push((n.to_string(), noncanon::run_elems(s.start + 1, s.end, &f, ext), f, ext)); }
+        else if n == "ood.evals" || n == "fri.remainder" || n == "cq.values" || n == "tq1.values" || (n.starts_with("fri") && n.ends_with(".values")) { v.push((n.to_string(), noncanon::run_elems(s.start, s.end, &f, ext), f, ext)); }
+        else if n == "tq0.values" { v.push((n.to_string(), noncanon::run_elems(s.start, s.end, &f, 1), f, 1)); }
+    }
+    if let Some((df, limbs)) = noncanon::digest_field(hsh) {
+        let dl = digest_len(hsh);
+        let c = lay.get("commitments");
+        v.push(("commitments".into(), (0..(c.end - c.start) / dl).map(|i| c.start + i * dl).collect(), df, limbs));
+        for s in lay.segs.iter().filter(|s| s.name.ends_with(".paths")) {
+            let offs = noncanon::path_digests(bytes, s.start, s.end, dl);
+            if !offs.is_empty() { v.push((s.name.clone(), offs, df, limbs)); }
+        }
+    }
+    v.retain(|x| !x.1.is_empty());
+    v
+}
+
+/// `noncanonical:<component>:<pos>.<limb>=<kind>`: ONE base-field word of an element-bearing component overwritten with a
+/// non-canonical encoding (harness/src/noncanon.rs).  Returns the mutants (for the component-level cases as well).
+fn noncanonical_mutants(bytes: &[u8], fld: &str, ext: usize, hsh: &str) -> Vec<noncanon::Mutant> {
+    let lay = match dissect(bytes) { Some(l) => l, None => return vec![] };
+    let mut all = Vec::new();
+    for (name, elems, f, deg) in element_regions(bytes, &lay, fld, ext, hsh) {
+        let (ms, _) = noncanon::mutants(bytes, &name, &elems, &f, deg);
+        all.extend(ms);
+    }
+    all
+}
+
+/// `frilayer:*`: a FRI layer without query values (FriProofLayer::read_from refuses it; FriProofLayer::parse has a second
+/// check behind it), with and without authentication paths
+fn empty_layer_mutants(bytes: &[u8], lay: &Layout) -> Vec<(String, Vec<u8>)> {
+    let mut v = Vec::new();
+    let cnt = lay.get("fri.nlayers").start;
+    if lay.nlayers > 0 {
+        let last = lay.nlayers - 1;
+        for i in if last == 0 { vec![0] } else { vec![0, last] } {
+            let (vs, ps) = (lay.get(&format!("fri{}.values", i)).clone(), lay.get(&format!("fri{}.paths", i)).clone());
+            v.push((format!("frilayer:values-empty@{}", i), splice(bytes, &vs, &[])));
+            // both: the paths first (they lie behind the values)
+            let m = splice(bytes, &ps, &[]);
+            v.push((format!("frilayer:paths-empty@{}", i), m.clone()));
+            v.push((format!("frilayer:both-empty@{}", i), splice(&m, &vs, &[])));
+        }
+    }
+    if bytes[cnt] < 255 {
+        // a layer of nothing inserted in front of the remainder (count byte adjusted)
+        let rp = lay.get("fri.remainder").pfx.unwrap().0;
+        for (lbl, layer) in [("frilayer:inserted-both-empty", vec![0u8; 8]), ("frilayer:inserted-values-empty", vec![0, 0, 0, 0, 2, 0, 0, 0, 1, 0])] {
+            let mut m = bytes[..rp].to_vec(); m.extend_from_slice(&layer); m.extend_from_slice(&bytes[rp..]); m[cnt] += 1;
+            v.push((lbl.to_string(), m));
+        }
+    }
+    v
+}
+
+fn lite(b: &Base) -> bool { lite_combo(&b.fld, &b.hsh) || b.spec.constant_trace }
+
 /// Structure-aware mutations of one valid proof.  `budget` bounds the sampled classes; the field classes are exhaustive.
 fn mutations(b: &Base, r: &mut Rng, budget: usize, exhaustive_bits: bool, out: &mut Vec<Case>) {
     let bytes = &b.bytes;
@@ -436,6 +609,25 @@ fn mutations(b: &Base, r: &mut Rng, budget: usize, exhaustive_bits: bool, out: &
     out.push(vcase(b, "valid".into(), bytes.clone()));
     // --- the acceptance policy as the application would set it: exactly the options of the honest proof
     if let Case::V(mut c) = vcase(b, "valid:optionset".into(), bytes.clone()) { c.policy = Some(b.opts); out.push(Case::V(c)); }
+    // --- 0. element level: non-canonical encodings of ONE base-field word in every element-bearing component; empty FRI layers
+    for m in noncanonical_mutants(bytes, &b.fld, (b.opts[3] as usize).max(1), &b.hsh) { out.push(vcase(b, m.label(), m.bytes)); }
+    for (lbl, m) in empty_layer_mutants(bytes, &lay) { out.push(vcase(b, lbl, m)); }
+    // the third base field, the other Rescue digests and the all-zero proofs exist for the element-level classes: besides
+    // those they get the length fields, a few truncations and random changes only
+    if lite(b) && !exhaustive_bits {
+        for s in &lay.segs {
+            if let Some((p, w)) = s.pfx {
+                let orig = rd(bytes, p, w).unwrap() as u64;
+                for v in [0u64, orig.wrapping_sub(1), orig + 1] { if v != orig { let mut m = bytes.clone(); set_le(&mut m, p, w, v); out.push(vcase(b, format!("lenfield:{}={}", s.name, v), m)); } }
+            }
+        }
+        for _ in 0..budget.min(24) {
+            let i = r.below(bytes.len() as u64) as usize;
+            out.push(vcase(b, format!("truncate@{}", i), bytes[..i].to_vec()));
+            let mut m = bytes.clone(); m[i] ^= 1 << r.below(8); out.push(vcase(b, format!("rnd@{}", i), m));
+        }
+        return;
+    }
     // proofs generated WITH metadata exist for the metadata class: they get that class, the metadata length field and the
     // header bit flips only (the other classes are exercised on the proofs without metadata)
     { let ms = lay.get("ti.meta");
@@ -490,7 +682,7 @@ fn mutations(b: &Base, r: &mut Rng, budget: usize, exhaustive_bits: bool, out: &
         }
     }
     // --- 2. components resized CONSISTENTLY (prefix rewritten): structurally valid proofs with inconsistent components
-    let eb = (if b.fld == "f64" { 8 } else { 16 }) * (b.opts[3] as usize).max(1);
+    let eb = elem_bytes_of(&b.fld) * (b.opts[3] as usize).max(1);
     for s in lay.segs.iter().filter(|s| s.pfx.is_some()) {
         let body = &bytes[s.start..s.end];
         for k in [1usize, eb, dl, 2 * eb, body.len() / 2, body.len()] {
@@ -663,7 +855,7 @@ fn component_cases(b: &Base, r: &mut Rng, out: &mut Vec<Case>) {
     }
     // the same frame with hostile first bytes / Lagrange frames, against an AIR without auxiliary columns
     for (fs, lag) in [(0u8, 0u8), (1, 0), (2, 1), (2, 255), (3, 0), (255, 0), (2, 0)] {
-        let ncol = mw + aw; let eb = (if b.fld == "f64" { 8 } else { 16 }) * ext;
+        let ncol = mw + aw; let eb = elem_bytes_of(&b.fld) * ext;
         let mut o = vec![]; let tl = 1 + ncol * fs as usize * eb;
         if tl > 65535 { continue; }
         o.extend_from_slice(&(tl as u16).to_le_bytes()); o.push(fs); o.extend(std::iter::repeat(0u8).take(tl - 1));
@@ -694,6 +886,25 @@ fn component_cases(b: &Base, r: &mut Rng, out: &mut Vec<Case>) {
         // `num_fri_layers + 1` overflows only where overflow checks are compiled in: the model has debug semantics
         if l == usize::MAX && !cfg!(debug_assertions) { continue; }
         out.push(Case::Line("commitments".into(), format!("C {} {} {} {}", dl, s, l, hex_bytes(&com))));
+    }
+    // the element-level classes against the typed parsers directly (honest AIR-side parameters): the component cut out of
+    // the mutant.  The hasher of these lines is chosen by digest length (by_ext_h), which is all the shapes depend on
+    {
+        let cut_of = |m: &[u8], a: &str, z: &str| -> Option<Vec<u8>> { let l = dissect(m)?; let (s, e) = (l.get(a), l.get(z)); Some(m[s.pfx.map(|p| p.0).unwrap_or(s.start)..e.end].to_vec()) };
+        let mut ms: Vec<(String, Vec<u8>)> = noncanonical_mutants(bytes, &b.fld, ext, &b.hsh).into_iter().map(|m| (m.label(), m.bytes)).collect();
+        ms.extend(empty_layer_mutants(bytes, &lay));
+        for (lbl, m) in ms {
+            let comp = lbl.split(':').nth(1).unwrap_or("").to_string();
+            let line = if lbl.starts_with("frilayer:") || comp.starts_with("fri") {
+                dissect(&m).map(|l| { let (s, e) = (l.get("fri.nlayers"), l.get("fri.partitions")); format!("F {} {} {} {} {} {}", b.fld, ext, dl, lde, ff, hex_bytes(&m[s.start..e.end])) })
+            } else if comp.starts_with("ood.") { cut_of(&m, "ood.trace", "ood.evals").map(|o| format!("O {} {} {} {} {} {}", b.fld, ext, mw, aw, b.ncols, hex_bytes(&o))) }
+            else if comp.starts_with("tq0.") { cut_of(&m, "tq0.values", "tq0.paths").map(|q| format!("Q {} 1 {} {} {} {} {}", b.fld, dl, lde, nuq, mw, hex_bytes(&q))) }
+            else if comp.starts_with("tq1.") { cut_of(&m, "tq1.values", "tq1.paths").map(|q| format!("Q {} {} {} {} {} {} {}", b.fld, ext, dl, lde, nuq, aw, hex_bytes(&q))) }
+            else if comp.starts_with("cq.") { cut_of(&m, "cq.values", "cq.paths").map(|q| format!("Q {} {} {} {} {} {} {}", b.fld, ext, dl, lde, nuq, b.ncols, hex_bytes(&q))) }
+            else if comp == "commitments" { cut_of(&m, "commitments", "commitments").map(|c| format!("C {} {} {} {}", dl, nseg, lay.nlayers, hex_bytes(&c))) }
+            else { None };
+            if let Some(l) = line { out.push(Case::Line(format!("component:{}", lbl), l)); }
+        }
     }
     // draw_integers
     for (q, d) in [(1usize, 2usize), (1, 1), (2, 2), (15, 16), (16, 16), (17, 16), (255, 16), (255, 256), (255, 255), (0, 16), (3, 0), (3, 12), (1000, 1 << 20), (1001, 1 << 20), (5, 1usize << 63)] {
@@ -786,6 +997,8 @@ macro_rules! by_ext_h {
             ("f64", 1, 24) => $func::<Blake3_192<B64>, B64>($($a),*), ("f64", 2, 24) => $func::<Blake3_192<B64>, QuadExtension<B64>>($($a),*), ("f64", 3, 24) => $func::<Blake3_192<B64>, CubeExtension<B64>>($($a),*),
             ("f128", 1, 32) => $func::<Blake3_256<B128>, B128>($($a),*), ("f128", 2, 32) => $func::<Blake3_256<B128>, QuadExtension<B128>>($($a),*),
             ("f128", 1, 24) => $func::<Blake3_192<B128>, B128>($($a),*), ("f128", 2, 24) => $func::<Blake3_192<B128>, QuadExtension<B128>>($($a),*),
+            ("f62", 1, 32) => $func::<Blake3_256<B62>, B62>($($a),*), ("f62", 2, 32) => $func::<Blake3_256<B62>, QuadExtension<B62>>($($a),*), ("f62", 3, 32) => $func::<Blake3_256<B62>, CubeExtension<B62>>($($a),*),
+            ("f62", 1, 31) => $func::<Rp62_248, B62>($($a),*), ("f62", 2, 31) => $func::<Rp62_248, QuadExtension<B62>>($($a),*), ("f62", 3, 31) => $func::<Rp62_248, CubeExtension<B62>>($($a),*),
             _ => "unsupported".to_string(),
         }
     };
@@ -798,30 +1011,82 @@ fn run_line(line: &str) -> String {
         "P" => run_p(&unhex(t[1])),
         "O" => { let b = unhex(t[6]); match (t[1], us(2)) {
             ("f64", 1) => run_ood::<B64>(us(3), us(4), us(5), &b), ("f64", 2) => run_ood::<QuadExtension<B64>>(us(3), us(4), us(5), &b), ("f64", 3) => run_ood::<CubeExtension<B64>>(us(3), us(4), us(5), &b),
-            ("f128", 1) => run_ood::<B128>(us(3), us(4), us(5), &b), ("f128", 2) => run_ood::<QuadExtension<B128>>(us(3), us(4), us(5), &b), _ => "unsupported".into() } }
+            ("f128", 1) => run_ood::<B128>(us(3), us(4), us(5), &b), ("f128", 2) => run_ood::<QuadExtension<B128>>(us(3), us(4), us(5), &b),
+            ("f62", 1) => run_ood::<B62>(us(3), us(4), us(5), &b), ("f62", 2) => run_ood::<QuadExtension<B62>>(us(3), us(4), us(5), &b), ("f62", 3) => run_ood::<CubeExtension<B62>>(us(3), us(4), us(5), &b),
+            _ => "unsupported".into() } }
         "Q" => { let b = unhex(t[7]); by_ext_h!(t[1], us(2), us(3), run_q(us(4), us(5), us(6), &b)) }
         "F" => { let b = unhex(t[6]); by_ext_h!(t[1], us(2), us(3), run_f(us(4), us(5), &b)) }
-        "C" => { let b = unhex(t[4]); if us(1) == 24 { run_c::<Blake3_192<B64>>(us(2), us(3), &b) } else { run_c::<Blake3_256<B64>>(us(2), us(3), &b) } }
+        "C" => { let b = unhex(t[4]); match us(1) { 24 => run_c::<Blake3_192<B64>>(us(2), us(3), &b), 31 => run_c::<Rp62_248>(us(2), us(3), &b), _ => run_c::<Blake3_256<B64>>(us(2), us(3), &b) } }
         "D" => run_d(us(1), us(2)),
         _ => "unsupported".into(),
     }
+}
+
+fn run_l<B: Fld, H>(c: &LCase) -> String
+where H: ElementHasher<BaseField = B> + Send + Sync {
+    let proof = match catch(AssertUnwindSafe(|| Proof::from_bytes(&c.bytes))) { Err(_) => return "panic".into(), Ok(Err(_)) => return "parse-err".into(), Ok(Ok(p)) => p };
+    let acc = AcceptableOptions::MinConjecturedSecurity(0);
+    let res = catch(AssertUnwindSafe(|| verify::<SLagAir<B>, H, DefaultRandomCoin<H>>(proof, (), &acc)));
+    let _ = lagfam::take_uses();
+    match res { Err(_) => "panic".into(), Ok(Ok(())) => "ok".into(), Ok(Err(e)) => verr_class(&e) }
 }
 
 fn run_case(c: &Case) -> String {
     match c {
         Case::V(v) => dispatch!(v.fld.as_str(), v.hsh.as_str(), run_v(v, true, false)),
         Case::Line(_, l) => run_line(l),
+        Case::L(l) => dispatch!(l.fld.as_str(), l.hsh.as_str(), run_l(l)),
     }
 }
-fn case_line(c: &Case) -> String { match c { Case::V(v) => v.line(), Case::Line(_, l) => l.clone() } }
-fn case_label(c: &Case) -> &str { match c { Case::V(v) => &v.label, Case::Line(l, _) => l } }
+fn case_line(c: &Case) -> String {
+    match c { Case::V(v) => v.line(), Case::Line(_, l) => l.clone(),
+              Case::L(l) => format!("L {} {} {} {} {} {}", l.fld, digest_len(&l.hsh), l.log_n, l.aw, l.nr, hex_bytes(&l.bytes)) }
+}
+fn case_label(c: &Case) -> &str { match c { Case::V(v) => &v.label, Case::Line(l, _) => l, Case::L(l) => &l.label } }
 
-/// the deterministic list of cases of a run (parent and children rebuild the same list)
-fn build_cases(seed: u64, n: usize, corpus: &str) -> Vec<Case> {
+/// Mutants of a proof of the Lagrange-kernel AIR: the GKR proof (a vint64 `usize` here) absent / undecodable / wrong, the
+/// Lagrange kernel frame resized, non-canonical elements in every component, empty FRI layers
+fn lagrange_cases(b: &LBase, out: &mut Vec<Case>) {
+    let bytes = &b.bytes;
+    let lay = match dissect(bytes) { Some(l) => l, None => return };
+    let mut push = |label: String, m: Vec<u8>| out.push(Case::L(LCase { label, fld: b.fld.clone(), hsh: b.hsh.clone(), log_n: b.log_n, aw: b.aw, nr: b.nr, bytes: m }));
+    push("lag:valid".into(), bytes.clone());
+    let g = lay.get("gkr");
+    let with_gkr = |tail: &[u8]| -> Vec<u8> { let mut m = bytes[..g.start].to_vec(); m.extend_from_slice(tail); m };
+    let k = b.log_n as u64;
+    push("lag:gkr=none".into(), with_gkr(&[0]));
+    // Some(bytes): tag 1, vint64 length, the bytes.  The GKR proof of this AIR is one vint64 number
+    let some = |body: &[u8]| -> Vec<u8> { let mut t = vec![1u8]; t.extend(vint(body.len() as u64, 1).unwrap()); t.extend_from_slice(body); with_gkr(&t) };
+    push("lag:gkr=undecodable:empty".into(), some(&[]));
+    push("lag:gkr=undecodable:9-byte-form-cut".into(), some(&[0, 1, 2]));
+    push("lag:gkr=undecodable:2-byte-form-cut".into(), some(&[0b10]));
+    for (n, v) in [("0", 0u64), ("k-1", k - 1), ("k+1", k + 1), ("64", 64), ("65", 65), ("2^63", 1 << 63), ("2^64-1", u64::MAX)] {
+        push(format!("lag:gkr=wrong:{}", n), some(&vint(v, 9).unwrap()));
+        if let Some(e) = vint(v, 1) { push(format!("lag:gkr=wrong:{}:short-form", n), some(&e)); }
+    }
+    push("lag:gkr=right:9-byte-form".into(), some(&vint(k, 9).unwrap()));
+    push("lag:gkr=right+trailing".into(), some(&{ let mut e = vint(k, 1).unwrap(); e.extend_from_slice(&[9, 9]); e }));
+    // the Lagrange kernel frame: length byte and element count changed together / alone
+    let s = lay.get("ood.lagrange"); let body = &bytes[s.start..s.end];
+    let eb = elem_bytes_of(&b.fld) * b.ext;
+    if body.len() > 1 + eb {
+        let mut nb = body[..body.len() - eb].to_vec(); nb[0] -= 1; push("lag:frame-1".into(), splice(bytes, s, &nb));
+        let mut nb = body.to_vec(); nb.extend(std::iter::repeat(0u8).take(eb)); nb[0] += 1; push("lag:frame+1".into(), splice(bytes, s, &nb));
+        let mut nb = body.to_vec(); nb[0] += 1; push("lag:frame-count+1".into(), splice(bytes, s, &nb));
+        push("lag:frame-absent".into(), splice(bytes, s, &[0]));
+    }
+    for m in noncanonical_mutants(bytes, &b.fld, b.ext, &b.hsh) { let l = m.label(); push(format!("lag:{}", l), m.bytes); }
+    for (lbl, m) in empty_layer_mutants(bytes, &lay) { push(format!("lag:{}", lbl), m); }
+}
+
+/// the deterministic list of cases of a run (parent and children rebuild the same list); `lag`: with the cases of the
+/// Lagrange-kernel AIR, which the model does not cover (falsifier only)
+fn build_cases(seed: u64, n: usize, corpus: &str, lag: bool) -> Vec<Case> {
     let bases = load_corpus(corpus);
     let mut r = Rng::new(seed);
     let mut out = Vec::new();
     malformed(&mut r, (n / 40).max(20), &mut out);
+    if lag { for lb in load_lag(corpus) { lagrange_cases(&lb, &mut out); } }
     if bases.is_empty() { return out; }
     // the smallest proof gets the exhaustive bit/byte/truncation treatment when the budget allows it
     let smallest = (0..bases.len()).min_by_key(|&i| bases[i].bytes.len()).unwrap();
@@ -844,7 +1109,7 @@ fn build_cases(seed: u64, n: usize, corpus: &str) -> Vec<Case> {
 /// child: runs cases [start, ..) of the list, streaming "<idx> <label>\t<case> => " BEFORE each library call
 fn child(mode: &str, seed: u64, n: usize, corpus: &str, start: usize) {
     silence_panics();
-    let cases = build_cases(seed, n, corpus);
+    let cases = build_cases(seed, n, corpus, mode != "corr");
     CAP.store(1 << 30, Ordering::Relaxed);
     let so = std::io::stdout();
     for (i, c) in cases.iter().enumerate().skip(start) {
@@ -864,7 +1129,7 @@ fn child(mode: &str, seed: u64, n: usize, corpus: &str, start: usize) {
                 if i % 7 == 0 { res.push(dispatch!(v.fld.as_str(), v.hsh.as_str(), run_v(v, true, true))); }
             }
             let (tot, mx) = alloc_read();
-            let len = match c { Case::V(v) => v.bytes.len(), Case::Line(_, l) => l.len() / 2 };
+            let len = match c { Case::V(v) => v.bytes.len(), Case::Line(_, l) => l.len() / 2, Case::L(l) => l.bytes.len() };
             writeln!(o, "{}\t{}\t{}\t{}\t{}\t{}", res.join(","), tot, mx, len, t0.elapsed().as_millis(), known_mismatch(c)).unwrap();
         }
     }
@@ -883,7 +1148,7 @@ fn known_mismatch(c: &Case) -> bool {
 /// parent: (re)starts children under an address-space limit; completes the line of a case which killed its child
 fn parent(mode: &str, seed: u64, n: usize, corpus: &str) -> (Vec<String>, usize) {
     let exe = std::env::current_exe().unwrap();
-    let total = build_cases(seed, n, corpus).len();
+    let total = build_cases(seed, n, corpus, mode != "corr").len();
     let mut lines: Vec<String> = Vec::new();
     let mut restarts = 0usize;
     while lines.len() < total {
@@ -922,6 +1187,14 @@ fn parent(mode: &str, seed: u64, n: usize, corpus: &str) -> (Vec<String>, usize)
     (lines, restarts)
 }
 
+/// the labels whose outcome is reported per case ("cell" lines; checks/c06.py holds the expected outcome of each)
+fn is_cell(label: &str) -> bool { ["noncanonical:", "frilayer:", "lag:", "component:noncanonical:", "component:frilayer:"].iter().any(|p| label.starts_with(p)) }
+/// "<base field>/<hasher or digest length>" of a case
+fn cell_field(c: &Case) -> String {
+    match c { Case::V(v) => format!("{}/{}", v.fld, v.hsh), Case::L(l) => format!("{}/{}", l.fld, l.hsh),
+              Case::Line(_, l) => { let t: Vec<&str> = l.split(' ').collect(); if t[0] == "C" { format!("-/{}", t[1]) } else { format!("{}/-", t.get(1).copied().unwrap_or("-")) } } }
+}
+
 /// are the AIR-side parameters of a component-level case inside the documented domain of the function? (outside, the
 /// documented `# Panics` apply and a panic is not a finding)
 fn component_admissible(line: &str) -> bool {
@@ -940,7 +1213,7 @@ fn component_admissible(line: &str) -> bool {
 
 fn falsify(seed: u64, n: usize, corpus: &str) {
     let (lines, restarts) = parent("falsify", seed, n, corpus);
-    let cases = build_cases(seed, n, corpus);
+    let cases = build_cases(seed, n, corpus, true);
     let (mut evals, mut fails) = (0usize, 0usize);
     let mut seen = std::collections::BTreeSet::new();
     for l in &lines {
@@ -949,6 +1222,7 @@ fn falsify(seed: u64, n: usize, corpus: &str) {
         let idx: usize = t[0].parse().unwrap_or(0);
         let (label, res, tot, mx, len, ms, known) = (t[1], t[2], t[3].parse::<usize>().unwrap_or(0), t[4].parse::<usize>().unwrap_or(0), t[5].parse::<usize>().unwrap_or(0), t[6].parse::<u128>().unwrap_or(0), t[7] == "true");
         evals += res.split(',').count();
+        if is_cell(label) { println!("cell\t{}\t{}\t{}", cases.get(idx).map(cell_field).unwrap_or_default(), label, res); }
         let class: String = label.split(|c| c == '@' || c == '=').next().unwrap_or("").to_string();
         let mut report = |what: String, expected: &str, actual: String| {
             if !seen.insert(format!("{}|{}", what, class)) { return; }
@@ -1036,6 +1310,11 @@ fn main() {
             let (lines, restarts) = parent("corr", seed, n, &a[4]);
             let so = std::io::stdout(); let mut o = so.lock();
             for l in &lines { writeln!(o, "{}", l).unwrap(); }
+            // outcome of every element-level case, by label (the lines above carry no labels)
+            let cases = build_cases(seed, n, &a[4], false);
+            for (c, l) in cases.iter().zip(lines.iter()) {
+                if is_cell(case_label(c)) { eprintln!("cell\t{}\t{}\t{}", cell_field(c), case_label(c), l.rsplit(" => ").next().unwrap_or("")); }
+            }
             eprintln!("cases={} child-restarts={}", lines.len(), restarts);
         }
         Some("corr-child") => child("corr", seed, a[3].parse().unwrap(), &a[4], a[5].parse().unwrap()),
@@ -1043,13 +1322,13 @@ fn main() {
         Some("falsify") => falsify(seed, a[3].parse().unwrap(), &a[4]),
         Some("replay") => replay(&a[2], &a[3]),
         Some("show") => { // run one case with the default panic hook (message and location on stderr)
-            let cases = build_cases(seed, a[3].parse().unwrap(), &a[4]);
+            let cases = build_cases(seed, a[3].parse().unwrap(), &a[4], true);
             let i: usize = a[5].parse().unwrap();
             println!("{} [{}] => {}", &case_line(&cases[i])[..case_line(&cases[i]).len().min(200)], case_label(&cases[i]), run_case(&cases[i]));
             if let Case::V(v) = &cases[i] { println!("plain-air => {}", dispatch!(v.fld.as_str(), v.hsh.as_str(), run_v(v, false, false))); }
         }
         Some("labels") => { // debugging aid: label of every case
-            for (i, c) in build_cases(seed, a[3].parse().unwrap(), &a[4]).iter().enumerate() { println!("{} {}", i, case_label(c)); }
+            for (i, c) in build_cases(seed, a[3].parse().unwrap(), &a[4], true).iter().enumerate() { println!("{} {}", i, case_label(c)); }
         }
         _ => { eprintln!("usage: c06 gen|corr|falsify|replay ..."); std::process::exit(2); }
     }
